@@ -164,6 +164,7 @@ type stepRec struct {
 	moved    []uint64
 	moveLvl  int
 	skipped  bool
+	hord     []uint64
 }
 
 type crashRun struct {
@@ -438,6 +439,14 @@ func (r *crashRun) fsOp(op int, name, name2 string, data []byte) {
 				r.hookErr = "manifest write not decodable: " + err.Error()
 			}
 			r.emit("MF "+corr.List(ts), "manifest append")
+			if r.cur != nil {
+				for _, t := range ts {
+					var b, f uint64
+					if n, _ := fmt.Sscanf(t, "VH %d %d", &b, &f); n == 2 {
+						r.cur.hord = append(r.cur.hord, b)
+					}
+				}
+			}
 		}
 	case base == "CURRENT.tmp" && op == opRename:
 		if b, err := os.ReadFile(name2); err == nil {
@@ -632,11 +641,11 @@ func (r *crashRun) doGC(db *NoKV.DB) {
 // ---- reopening a crash image ----
 
 type obsT struct {
-	opened  bool
-	reads   []string // per key: OA | OV n | OU | OG | OD
-	stable  bool
-	note    string
-	panicAt string
+	opened bool
+	reads  []string   // per key: OA | OV n | OU | OG | OD
+	stages [][]string // reads after flush, after move+GC, after a clean reopen
+	stable bool
+	note   string
 }
 
 func readKey(db *NoKV.DB, cfg *wlConfig, values map[string]int, key []byte) string {
@@ -756,11 +765,17 @@ func observe(img image, cfg *wlConfig, values map[string]int) obsT {
 		if err := ls.VerifWaitFlushed(0, 20*time.Second); err != nil {
 			panic(err)
 		}
-		if got := readAll(db, cfg, values); strings.Join(got, ";") != strings.Join(o.reads, ";") {
+		got := readAll(db, cfg, values)
+		o.stages = append(o.stages, got)
+		if strings.Join(got, ";") != strings.Join(o.reads, ";") {
 			o.stable = false
 			o.note += " after-flush:" + strings.Join(got, ";")
 		}
-		_ = ls.VerifCompact(0, 0, 6)
+		if cfg.Txn {
+			// plain writes all carry one version: the ingest-buffer tie rule (known finding C01/C02-F2)
+			// is the lsm family's subject, the move is forced here for transactional workloads only
+			_ = ls.VerifCompact(0, 0, 6)
+		}
 		for b := 0; b < cfg.Buckets; b++ {
 			fids, active := db.VerifVlogFids(uint32(b))
 			for _, f := range fids {
@@ -771,7 +786,9 @@ func observe(img image, cfg *wlConfig, values map[string]int) obsT {
 				}
 			}
 		}
-		if got := readAll(db, cfg, values); strings.Join(got, ";") != strings.Join(o.reads, ";") {
+		got = readAll(db, cfg, values)
+		o.stages = append(o.stages, got)
+		if strings.Join(got, ";") != strings.Join(o.reads, ";") {
 			o.stable = false
 			o.note += " after-maintenance:" + strings.Join(got, ";")
 		}
@@ -792,7 +809,9 @@ func observe(img image, cfg *wlConfig, values map[string]int) obsT {
 		o.note += " second open: " + perr
 		return o
 	}
-	if got := readAll(db2, cfg, values); strings.Join(got, ";") != strings.Join(o.reads, ";") {
+	got := readAll(db2, cfg, values)
+	o.stages = append(o.stages, got)
+	if strings.Join(got, ";") != strings.Join(o.reads, ";") {
 		o.stable = false
 		o.note += " after-reopen:" + strings.Join(got, ";")
 	}
@@ -829,6 +848,7 @@ func (r *crashRun) stepTerms() ([]string, error) {
 	var out []string
 	lastVer := uint64(0)
 	r.versionsUp = true
+	rank := map[uint64]int{}
 	for _, s := range r.steps {
 		switch s.kind {
 		case "rot":
@@ -864,9 +884,18 @@ func (r *crashRun) stepTerms() ([]string, error) {
 							r.versionsUp = false
 						}
 						lastVer = ver
+						rank[ver] = len(rank) + 1
 					} else if ver != lastVer {
 						r.versionsUp = false
 					}
+				}
+				vrank := 0
+				if r.cfg.Txn {
+					vr, ok := rank[ver]
+					if !ok {
+						return nil, fmt.Errorf("a written-back record carries version %d that no transaction committed", ver)
+					}
+					vrank = vr
 				}
 				del := g.Meta&kv.BitDelete != 0
 				loc, vid, vrot := 0, 0, false
@@ -889,13 +918,13 @@ func (r *crashRun) stepTerms() ([]string, error) {
 				} else if !del {
 					vid = r.values[string(g.Value)]
 				}
-				ents = append(ents, fmt.Sprintf("En %d %d %s %d %s %s %s", k, vid, coqBool(del), loc,
-					coqBool(has(s.mrotAt, i)), coqBool(has(s.spillAt, i)), coqBool(vrot)))
+				ents = append(ents, fmt.Sprintf("En %d %d %s %d %s %s %s %d", k, vid, coqBool(del), loc,
+					coqBool(has(s.mrotAt, i)), coqBool(has(s.spillAt, i)), coqBool(vrot), vrank))
 			}
 			if s.kind == "batch" {
-				out = append(out, fmt.Sprintf("SB %s %s", corr.List(ents), corr.ListN(border)))
+				out = append(out, fmt.Sprintf("SB %s %s %s", corr.List(ents), corr.ListN(border), corr.ListN(s.hord)))
 			} else {
-				out = append(out, fmt.Sprintf("SGc %d %d %s %s", s.gcBucket, s.gcFid, corr.List(ents), corr.ListN(border)))
+				out = append(out, fmt.Sprintf("SGc %d %d %s %s %s", s.gcBucket, s.gcFid, corr.List(ents), corr.ListN(border), corr.ListN(s.hord)))
 			}
 		}
 	}
@@ -973,24 +1002,54 @@ func runWorkload(c *corr.Ctx, cfg *wlConfig, label string) error {
 		return errors.New("commit versions of successive transactions are not increasing")
 	}
 	// reopen every distinct crash image once
+	curRun = nil
 	obsOf := map[string]obsT{}
+	var order []string
 	for _, p := range r.points {
 		if _, ok := obsOf[p.img]; !ok {
-			obsOf[p.img] = observe(r.images[p.img], cfg, r.values)
-			c.Count("reopenings")
+			obsOf[p.img] = obsT{}
+			order = append(order, p.img)
 		}
 	}
-	curRun = nil
+	{
+		var wg sync.WaitGroup
+		var omu sync.Mutex
+		sem := make(chan struct{}, 8)
+		for _, h := range order {
+			wg.Add(1)
+			sem <- struct{}{}
+			go func(h string) {
+				defer wg.Done()
+				defer func() { <-sem }()
+				o := observe(r.images[h], cfg, r.values)
+				omu.Lock()
+				obsOf[h] = o
+				omu.Unlock()
+			}(h)
+		}
+		wg.Wait()
+		c.CountN("reopenings", len(order))
+	}
+	propN := 10
+	fmt.Sscanf(c.Prop, "C%d", &propN)
 	cfgJSON, _ := json.Marshal(cfg)
 	seen := map[string]bool{}
 	for _, p := range r.points {
 		o := obsOf[p.img]
-		var reads []string
-		for i, rd := range o.reads {
-			reads = append(reads, fmt.Sprintf("(%d, %s)", i+1, rd))
+		rl := func(rs []string) string {
+			var reads []string
+			for i, rd := range rs {
+				reads = append(reads, fmt.Sprintf("(%d, %s)", i+1, rd))
+			}
+			return corr.List(reads)
 		}
-		obs := fmt.Sprintf("Ob %s %s %s", coqBool(o.opened), corr.List(reads), coqBool(o.stable))
-		term := fmt.Sprintf("Cs %s %d %s %s %d %d (%s)", coqBool(cfg.Sync), firstSeg, corr.List(steps), corr.List(r.effs), p.n, p.acked, obs)
+		var stages []string
+		for _, st := range o.stages {
+			stages = append(stages, rl(st))
+		}
+		obs := fmt.Sprintf("Ob %s %s %s", coqBool(o.opened), rl(o.reads), corr.List(stages))
+		term := fmt.Sprintf("Cs %d %s %d %d %s %s %s %d %d (%s)", propN, coqBool(cfg.Sync), firstSeg, cfg.Buckets, coqBool(cfg.Txn),
+			corr.List(steps), corr.List(r.effs), p.n, p.acked, obs)
 		key := fmt.Sprintf("%d/%d/%s", p.n, p.acked, obs)
 		if seen[key] {
 			c.Count("crash_points_same_state")
